@@ -477,7 +477,7 @@ harnesses! {
     c18_insert_unchecked: [1] [2] [3] [4];
     c18_disjoint_unchecked: [2, 0] [1, 1] [2, 2] [3, 2] [2, 3] [3, 3];
     @deep
-    c13_disjoint: [4, 3] [3, 4] [4, 4] [5, 2] [2, 9] [2, 17];
+    c13_disjoint: [4, 3] [3, 4] [4, 4] [5, 2] [2, 9] [2, 17] [2, 33];
     c13_disjoint_tok: [4] [5];
     c15_clone: [4] [5];
     c15_set_clone: [4] [5];
